@@ -342,6 +342,50 @@ pub fn drive(args: &[String]) {
             sink.emit(e);
         }
     }
+    // periodic graphs as data structures (PGraph.tla, conformance level): construction from arbitrary edge lists with reversed
+    // duplicates, loops with mixed-sign shifts, repeated edges; edges are read back through Display ("h --(s1, s2)-> t")
+    {
+        use rust_dsymbols::pgraphs::{PeriodicGraph, VectorLabelledEdge};
+        fn parse_edge(t: &str) -> Option<(usize, usize, Vec<i64>)> {
+            let (h, rest) = t.split_once(" --(")?;
+            let (sh, tl) = rest.split_once(")-> ")?;
+            let s: Vec<i64> = if sh.trim().is_empty() { vec![] } else { sh.split(", ").map(|x| x.parse().ok()).collect::<Option<Vec<_>>>()? };
+            Some((h.parse().ok()?, tl.parse().ok()?, s))
+        }
+        for _ in 0..(n / 3).max(20) {
+            let d = rng.gen_range(1..=3usize);
+            let nv = rng.gen_range(1..=4usize);
+            let mut input: Vec<(usize, usize, Vec<i64>)> = vec![];
+            for _ in 0..rng.gen_range(1..=7) {
+                let e = (rng.gen_range(1..=nv), rng.gen_range(1..=nv), (0..d).map(|_| rng.gen_range(-2..=2i64)).collect::<Vec<_>>());
+                input.push(e.clone());
+                if rng.gen_bool(0.3) { input.push((e.1, e.0, e.2.iter().map(|x| -x).collect())); }
+                if rng.gen_bool(0.15) { input.push(e); }
+            }
+            let mut e = json!({"ev": "pgraph", "dim": d, "input": input.iter().map(|(h, t, s)| json!([h, t, s])).collect::<Vec<_>>()});
+            pending(&e);
+            match catch(|| {
+                let g = PeriodicGraph::from(input.iter().map(|(h, t, s)| { let mut m = VecMatrix::<i64>::new(d, 1); for k in 0..d { m[k][0] = s[k]; } VectorLabelledEdge::make(*h, *t, m) }).collect::<Vec<_>>());
+                let edges: Vec<Option<(usize, usize, Vec<i64>)>> = g.edges().iter().map(|x| parse_edge(&x.to_string())).collect();
+                let verts = g.vertices().clone();
+                let inc: Vec<Vec<Option<(usize, usize, Vec<i64>)>>> = verts.iter().map(|&v| g.incidences(v).map(|l| l.iter().map(|x| parse_edge(&x.to_string())).collect()).unwrap_or_default()).collect();
+                (edges, verts, inc, g.dim())
+            }) {
+                Ok((edges, verts, inc, gd)) => {
+                    if edges.iter().any(|x| x.is_none()) || inc.iter().flatten().any(|x| x.is_none()) { e["panic"] = json!("an edge does not print as h --(s)-> t"); }
+                    else {
+                        let tri = |x: &Option<(usize, usize, Vec<i64>)>| { let (h, t, s) = x.clone().unwrap(); json!([h, t, s]) };
+                        e["edges"] = json!(edges.iter().map(tri).collect::<Vec<_>>());
+                        e["verts"] = json!(verts);
+                        e["inc"] = json!(inc.iter().map(|l| l.iter().map(tri).collect::<Vec<_>>()).collect::<Vec<_>>());
+                        e["gdim"] = json!(gd);
+                    }
+                }
+                Err(m) => { e["panic"] = json!(m); }
+            }
+            sink.emit(e);
+        }
+    }
     if let Some(es) = esink.as_mut() { for e in PADIC.with(|p| std::mem::take(&mut *p.borrow_mut())) { es.emit(e); } es.flush(); }
     flush_deferred(&mut sink);
     sink.flush();
